@@ -11,8 +11,9 @@
 (*                                                                         *)
 (* The driver logs, computed by brute force over all pairs with the        *)
 (* TANGENT criterion, the admissible pairs of both directions as           *)
-(* <<source, target, rank>> (rank = position in the strict ascending       *)
-(* distance order), the surface label of every point, and per call the     *)
+(* <<source, target, rank>> (rank = position in the ascending distance      *)
+(* order, strict among pairs that share a point - cases with a near tie    *)
+(* are discarded), the surface label of every point, and per call the      *)
 (* returned pairs with: rank (0 = not admissible), reported thickness and  *)
 (* |t-s|*voxel (both x1e5, nm), the three geometric flags of the pair.     *)
 (* The predicate ValidPairs of Thickness.tla decides.                      *)
